@@ -231,9 +231,11 @@ class HoistTrans(Transformation):
             # Hoisting any of the assignments to 'a' out is invalid.
             # This is done by counting the write accesses to the variable
             # in the loop and in the statement.
-            writes_in_loop = sum(access.access_type == AccessType.WRITE
+            writes_in_loop = sum(access.access_type in
+                                 AccessType.all_write_accesses()
                                  for access in accesses_in_loop)
-            writes_in_statement = sum(access.access_type == AccessType.WRITE
+            writes_in_statement = sum(access.access_type in
+                                      AccessType.all_write_accesses()
                                       for access in accesses_in_statement)
             if writes_in_loop > writes_in_statement:
                 raise TransformationError(f"There is at least one additional "
